@@ -55,6 +55,8 @@ def run(chk):
     chk.queue([isoprogs.isolation_program(rng) for _ in range(12000 if thorough else 3000)], 'random-isolation')
     chk.queue([isoprogs.isolation_program(rng, lsb0=True) for _ in range(3000 if thorough else 600)], 'random-isolation-lsb0')
     chk.queue([isoprogs.derive_then_mutate_program(rng, lsb0=(i % 5 == 4)) for i in range(4000 if thorough else 1000)], 'derive-then-mutate')
+    from harness import codecprogs
+    chk.queue([codecprogs.value_history_program(rng) for _ in range(2000 if thorough else 400)], 'value-histories')
     mech(chk, thorough)
     chk.flush()
     ext.result()
